@@ -1,14 +1,15 @@
 /* C10 (and C07 safety): secp256k1_borromean_verify - gating, indexing by ring sizes, challenge wiring,
  * field order of secp256k1_borromean_hash, and the final 32-byte comparison, for every ring layout the
  * range-proof verifier can produce (1..32 rings of 1..4 members), every e0, message, scalars and keys.
- * Oracles (assumed): secp256k1_ecmult, secp256k1_ge_set_gej_var (watch-style logs).  sha256_write/_finalize:
- * stream contracts of hash_log.h; the watch (epoch, position) is arbitrary, so every assertion about it
+ * Oracles (assumed, call-site stubs with watch-style logs): secp256k1_ecmult, secp256k1_ge_set_gej_var.
+ * sha256_write/_finalize: stream contracts of hash_log.h as stubs; the watch (epoch, position) is arbitrary, so every assertion about it
  * holds for every hash computation and every byte position.
  * Numbering: ring member k (global index, ring i, position j) uses the challenge produced by hash epoch k;
  * epoch k hashes  (j == 0 ? e0 : ser33(R_{k-1})) || m || be32(i) || be32(j);  the last epoch hashes
  * ser33(R_last(0)) || ... || ser33(R_last(nrings-1)) || m  and is compared with e0. */
-#define RP_ECMULT_WATCH
-#include "hash_log.h"
+#define RP_STUB_ECMULT
+#define RP_STUB_SET_GEJ
+#define RP_STUB_SHA
 #include "assumed_rangeproof.h"
 #include "src/secp256k1.c"
 #include "post.h"
